@@ -126,7 +126,8 @@ def main():
     if a.harmless:
         cat = [c for c in cat if c[1] == 'harmless']
     if a.only:
-        cat = [c for c in cat if a.only in c[0][0] or a.only == c[0][1]]
+        only = a.only.split(',')
+        cat = [c for c in cat if any(o in c[0][0] or o == c[0][1] for o in only)]
     results = []
     with ThreadPoolExecutor(max_workers=a.jobs) as ex:
         for (m, kind), res in zip(cat, ex.map(lambda c: run_one(c[0]), cat)):
